@@ -222,13 +222,53 @@ def task_rational_high():
 task_rational_high.contract_fn = "calculus.Derivate.curve"
 
 
+# --------------------------------------------------------------------------------------
+# engine B: knot vectors given as plain Python ints / numpy ints (non-unit spacing, degree up to 4): same derivative as for the equal Fraction knots
+# --------------------------------------------------------------------------------------
+def task_int_knots():
+    fn = "calculus.Derivate.curve"
+    out = []
+    cases = {"p3-spacing": [0, 0, 0, 0, 2, 5, 9, 9, 9, 9], "p2-unit": [0, 0, 0, 1, 2, 3, 3, 3], "p3-unit": [0, 0, 0, 0, 1, 2, 3, 3, 3, 3],
+             "p4": [-3, -3, -3, -3, -3, 1, 4, 4, 4, 4, 4], "p1-jump": [0, 0, 3, 3, 7, 7]}
+    for name, Ui in cases.items():
+        p = Ui.count(Ui[0]) - 1
+        n = len(Ui) - p - 1
+        UF = [F(x) for x in Ui]
+        P = [F((-1) ** i * (i * i + 1), i + 2) for i in range(n)]
+        for kind, conv in (("int", int), ("numpy-int64", np.int64)):
+            bad = None
+            try:
+                D = calculus.Derivate(curves.Curve([conv(x) for x in Ui], list(P)))
+                cuts = sorted(set(UF))
+                for a, b in zip(cuts[:-1], cuts[1:]):
+                    for s_ in (1, 2, 3):
+                        u = a + (b - a) * F(s_, 4)
+                        k = spec.spec_span(UF, p, u)
+                        N = spec.cdb(UF, p, k, spec.Poly.X())[:n]
+                        exp = sum((N[i] * P[i] for i in range(n)), spec.Poly()).deriv()(u)
+                        got = D(float(u))
+                        if abs(F(got) - exp) > F(1, 10 ** 7) * max(1, abs(exp)):
+                            bad = "D(%s) = %s, exact derivative %s" % (u, got, exp)
+                            break
+                    if bad:
+                        break
+            except Exception as e:
+                bad = "%s: %s" % (type(e).__name__, str(e)[:100])
+            out.append(ob("%s:int-knots[%s,%s]" % (fn, name, kind), fn, FAILED if bad else PROVED, "B", "concrete", 0.0,
+                          bad or "integer knot values: derivative equals the formal derivative of the Cox-de Boor spec", dict(kind="c09.int", case=name, conv=kind) if bad else None))
+    return out + [{"_stats": dict(cases=len(out))}]
+
+
+task_int_knots.contract_fn = "calculus.Derivate.curve"
+
+
 def tasks(tier, seed):
     from ..pyvc.driver import verify
     from ..contracts import misc
     ts = [(verify, (misc.DIFFERENCE_VECTOR, "heavy", "Calculus.difference_vector", None)),
           (verify, (misc.DIFFERENCE_MATRIX, "heavy", "Calculus.difference_matrix", None)),
           (verify, (misc.DERIV_BEZIER, "heavy", "Calculus.derivate_nonrational_bezier", None))]
-    ts += [(task_order, (name,)) for name in ORDER_FAMILIES] + [(task_rational_high, ())]
+    ts += [(task_order, (name,)) for name in ORDER_FAMILIES] + [(task_rational_high, ()), (task_int_knots, ())]
     for p, cells in shapes(tier):
         for variant in ((0, 1) if tier == "quick" else (0, 1, 2)):
             ts.append((task_deriv, (p, cells, variant, False)))
@@ -239,6 +279,9 @@ def tasks(tier, seed):
 
 def replay(o):
     w = o["witness"]
+    if w.get("kind") == "c09.int":
+        r = [x for x in task_int_knots() if "id" in x and x["id"].endswith("[%s,%s]" % (w["case"], w["conv"]))][0]
+        return r["status"] == FAILED, "derivative of the curve on integer knots", r["detail"]
     if w.get("kind") == "c09.order":
         r = task_order(w["family"])[0]
         return r["status"] == FAILED, "exact derivative in every order", r["detail"]
